@@ -71,3 +71,167 @@ pub fn toml_table_to_r(t: &toml::Table) -> RVal {
 
 /// true when toml::Table keeps insertion order in this build
 pub const PRESERVE_ORDER: bool = cfg!(feature = "po");
+
+// ------------------------------------------------------------------ the same data through other accessors
+
+/// the tree read through `Item`'s own accessors and lookups (`is_*`, `as_*`, `get`, `get_key_value`,
+/// `contains_*`, indexing) instead of matching on the enums; any disagreement between those
+/// accessors shows up as a marker string in the tree
+pub fn edit_table_to_r_by_accessors(t: &toml_edit::Table) -> RVal {
+    let mut entries = Vec::new();
+    for (k, item) in t.iter() {
+        let looked_up = t.get(k).map(|i| std::ptr::eq(i, item)).unwrap_or(false) && t.get_key_value(k).map_or(false, |(key, _)| key.get() == k) && t.contains_key(k);
+        let v = if looked_up { edit_item_by_accessors(item) } else { RVal::Str(format!("<lookup of {k:?} does not find the iterated entry>")) };
+        entries.push((k.to_string(), v));
+    }
+    if t.len() != entries.len() || t.is_empty() != entries.is_empty() {
+        entries.push(("<len() / is_empty() disagree with iteration>".into(), RVal::Bool(false)));
+    }
+    RVal::table(entries)
+}
+
+fn edit_item_by_accessors(i: &toml_edit::Item) -> RVal {
+    let kinds = [i.is_integer(), i.is_float(), i.is_bool(), i.is_str(), i.is_datetime(), i.is_array(), i.is_inline_table(), i.is_table(), i.is_array_of_tables(), i.is_none()];
+    if kinds.iter().filter(|b| **b).count() != 1 {
+        return RVal::Str(format!("<Item::is_* accessors are not exclusive: {kinds:?} for a {}>", i.type_name()));
+    }
+    if i.is_value() != i.as_value().is_some() || i.is_table_like() != (i.is_table() || i.is_inline_table()) {
+        return RVal::Str("<is_value / is_table_like disagree with the other accessors>".into());
+    }
+    if let Some(x) = i.as_integer() {
+        return RVal::Int(x);
+    }
+    if let Some(x) = i.as_float() {
+        return RVal::Float(x.to_bits());
+    }
+    if let Some(x) = i.as_bool() {
+        return RVal::Bool(x);
+    }
+    if let Some(x) = i.as_str() {
+        return RVal::Str(x.to_string());
+    }
+    if let Some(x) = i.as_datetime() {
+        return RVal::Dt(dt_to_r(x));
+    }
+    if let Some(a) = i.as_array() {
+        let mut out = Vec::new();
+        for idx in 0..a.len() {
+            match a.get(idx) {
+                Some(v) => out.push(edit_value_by_accessors(v)),
+                None => out.push(RVal::Str("<Array::get misses an index below len()>".into())),
+            }
+        }
+        return RVal::Array(out);
+    }
+    if let Some(t) = i.as_inline_table() {
+        return inline_by_accessors(t);
+    }
+    if let Some(t) = i.as_table() {
+        return edit_table_to_r_by_accessors(t);
+    }
+    if let Some(a) = i.as_array_of_tables() {
+        return RVal::Array((0..a.len()).map(|idx| a.get(idx).map(edit_table_to_r_by_accessors).unwrap_or_else(|| RVal::Str("<ArrayOfTables::get misses>".into()))).collect());
+    }
+    RVal::Str("<no accessor answers>".into())
+}
+
+fn inline_by_accessors(t: &toml_edit::InlineTable) -> RVal {
+    let mut entries = Vec::new();
+    for (k, v) in t.iter() {
+        let ok = t.get(k).map_or(false, |x| std::ptr::eq(x, v)) && t.contains_key(k);
+        entries.push((k.to_string(), if ok { edit_value_by_accessors(v) } else { RVal::Str(format!("<lookup of {k:?} does not find the iterated entry>")) }));
+    }
+    if t.len() != entries.len() || t.is_empty() != entries.is_empty() {
+        entries.push(("<len() / is_empty() disagree with iteration>".into(), RVal::Bool(false)));
+    }
+    RVal::table(entries)
+}
+
+fn edit_value_by_accessors(v: &toml_edit::Value) -> RVal {
+    let kinds = [v.is_integer(), v.is_float(), v.is_bool(), v.is_str(), v.is_datetime(), v.is_array(), v.is_inline_table()];
+    if kinds.iter().filter(|b| **b).count() != 1 {
+        return RVal::Str(format!("<Value::is_* accessors are not exclusive: {kinds:?} for a {}>", v.type_name()));
+    }
+    if let Some(x) = v.as_integer() {
+        return RVal::Int(x);
+    }
+    if let Some(x) = v.as_float() {
+        return RVal::Float(x.to_bits());
+    }
+    if let Some(x) = v.as_bool() {
+        return RVal::Bool(x);
+    }
+    if let Some(x) = v.as_str() {
+        return RVal::Str(x.to_string());
+    }
+    if let Some(x) = v.as_datetime() {
+        return RVal::Dt(dt_to_r(x));
+    }
+    if let Some(a) = v.as_array() {
+        return RVal::Array(a.iter().map(edit_value_by_accessors).collect());
+    }
+    if let Some(t) = v.as_inline_table() {
+        return inline_by_accessors(t);
+    }
+    RVal::Str("<no accessor answers>".into())
+}
+
+/// toml::Value read through `as_*` / `is_*` / `get` and every iterator the map offers, forwards and
+/// backwards
+pub fn toml_value_by_accessors(v: &toml::Value) -> RVal {
+    let kinds = [v.is_integer(), v.is_float(), v.is_bool(), v.is_str(), v.is_datetime(), v.is_array(), v.is_table()];
+    if kinds.iter().filter(|b| **b).count() != 1 {
+        return RVal::Str(format!("<toml::Value::is_* accessors are not exclusive: {kinds:?} for a {}>", v.type_str()));
+    }
+    if let Some(x) = v.as_integer() {
+        return RVal::Int(x);
+    }
+    if let Some(x) = v.as_float() {
+        return RVal::Float(x.to_bits());
+    }
+    if let Some(x) = v.as_bool() {
+        return RVal::Bool(x);
+    }
+    if let Some(x) = v.as_str() {
+        return RVal::Str(x.to_string());
+    }
+    if let Some(x) = v.as_datetime() {
+        return RVal::Dt(dt_to_r(x));
+    }
+    if let Some(a) = v.as_array() {
+        return RVal::Array((0..a.len()).map(|i| v.get(i).map(toml_value_by_accessors).unwrap_or_else(|| RVal::Str("<get(index) misses>".into()))).collect());
+    }
+    if let Some(t) = v.as_table() {
+        return toml_table_by_accessors(t);
+    }
+    RVal::Str("<no accessor answers>".into())
+}
+
+pub fn toml_table_by_accessors(t: &toml::Table) -> RVal {
+    let fwd: Vec<&String> = t.keys().collect();
+    let mut back: Vec<&String> = t.keys().rev().collect();
+    back.reverse();
+    let mut back2: Vec<&String> = t.iter().rev().map(|(k, _)| k).collect();
+    back2.reverse();
+    let vals: Vec<*const toml::Value> = t.values().map(|v| v as *const _).collect();
+    let mut vals_back: Vec<*const toml::Value> = t.values().rev().map(|v| v as *const _).collect();
+    vals_back.reverse();
+    let mut last_first: Vec<&String> = Vec::new();
+    let mut it = t.iter();
+    while let Some((k, _)) = it.next_back() {
+        last_first.push(k);
+    }
+    last_first.reverse();
+    let mut entries = Vec::new();
+    if fwd != back || fwd != back2 || fwd != last_first || vals != vals_back || t.len() != fwd.len() || t.iter().len() != fwd.len() || t.is_empty() != fwd.is_empty() {
+        entries.push(("<forward and backward iteration of toml::Table disagree>".to_string(), RVal::Bool(false)));
+    }
+    for (i, k) in fwd.iter().enumerate() {
+        let v = match (t.get(k.as_str()), t.get_key_value(k.as_str())) {
+            (Some(v), Some((k2, v2))) if std::ptr::eq(v, v2) && k2 == *k && std::ptr::eq(v as *const _, vals[i]) && t.contains_key(k.as_str()) => toml_value_by_accessors(v),
+            _ => RVal::Str(format!("<lookup of {k:?} does not find the iterated entry>")),
+        };
+        entries.push(((*k).clone(), v));
+    }
+    RVal::table(entries)
+}
